@@ -65,7 +65,10 @@ CLAIMED = {
              "(C05_completion_twice_changes_nothing) and normalising a normalised set returns the very same list "
              "(C05_normalize_idempotent: nothing left to complete, every system's auxiliary components recomputed to the same "
              "components, a sorted list is determined by its per-system blocks; C05_read_components_are_normalized: what the "
-             "reader returns is a fixed point). Correspondence: model vs "
+             "reader returns is a fixed point). End to end through normalize_data (both completion passes, the auxiliary "
+             "reassignment, the sort): in the normalised list the production of an on-site thermal carrier attributed to a system "
+             "is, step by step, its declared production plus max(0, use - declared production) of that system "
+             "(C05_normalized_production, C05_completed_value). Correspondence: model vs "
              "implementation on un-normalised component sets (serde JSON), multiset equality per system plus order of "
              "non-auxiliary components; the completion rule, 'nothing dropped' and idempotence (normalize twice) are "
              "recomputed on implementation outputs.",
@@ -79,7 +82,11 @@ CLAIMED = {
              "declared amount (C06_conserve); other systems' components are untouched (C06_others_untouched); a "
              "multi-service system with auxiliaries and no output at all is rejected with WrongInput; AUX makes "
              "ELECTRICIDAD a balanced carrier and counts as EPB electricity use. The zero-output-step loss is proved "
-             "to exist (C06_zero_output_refuted) and recorded as a known finding. Correspondence and oracle as for C05.",
+             "to exist (C06_zero_output_refuted) and recorded as a known finding. End to end through normalize_data "
+             "(completion, the passes of all systems, the stable sort): the auxiliary components of a system add up at each step "
+             "to its declared auxiliary energy, or to zero at a step without output energy of a multi-service system "
+             "(C06_normalized_aux_total, C06_normalized_aux_conserved: the finding stated for every input). "
+             "Correspondence and oracle as for C05.",
         design_ref="DESIGN.md §6 C06",
         note="Trusted: Coq kernel + vm_compute; model tied by differential testing; three fix: commits in /repo "
              "(ccf3680, 5ed34e0, 699eef2); one known finding (zero-output step).",
@@ -142,7 +149,10 @@ CLAIMED = {
              "normalised list of a reordered list is a permutation of the normalised list, or the same error "
              "(C10_normalize_reorder: per-system sums, any processing order of the systems), hence the same evaluation "
              "(C10_reorder_declared); any injective renumbering of the systems gives the renumbered normalised components in "
-             "the order of the new numbers (C10_normalize_rename, C10_rename_declared). Text level, over the reader model of "
+             "the order of the new numbers (C10_normalize_rename, C10_rename_declared); one declared component written as two "
+             "lines whose values add up normalises to a list with the same tag-selected sums, or to the same error "
+             "(C10_normalize_split, C10_split_declared; more generally any two lists with the same per-system sums, kinds and "
+             "order of first appearance: C10_normalize_same_system_sums). Text level, over the reader model of "
              "Model/Parse.v (tied to FromStr by the exact correspondence of C16): the reader sees the text only through its "
              "trimmed lines (C10_text_is_read_by_trimmed_lines), so white space around any line (C10_text_whitespace), "
              "blank / comment / header lines anywhere (C10_text_ignored_line), a byte order mark (C10_text_bom) and a CR "
@@ -186,12 +196,15 @@ CLAIMED = {
              "cross-carrier argument showing that the resources taken out for exported cogenerated electricity never "
              "exceed the weighted fuel (needs the annual-ratio cogeneration factor, fix 55df7f9) — hence RER = "
              "ren/(ren+nren) lies in [0,1] when the total is positive and is 0 when it is zero; RER_nrb <= RER; "
-             "RER_onst >= 0; the full nesting RER_onst <= RER_nrb <= RER for every building that exports no electricity. "
-             "With exported electricity the nesting fails (C13_nested_refuted: RER_onst = 2), recorded as a known finding. "
+             "RER_onst >= 0; the full nesting RER_onst <= RER_nrb <= RER for every building that exports no electricity, and "
+             "for every building that exports only cogenerated electricity whose fuels are nearby carriers "
+             "(C13_nested_nearby_cogeneration). The two hypotheses failing are the two known findings: exported on-site "
+             "electricity (C13_nested_refuted: RER_onst = 2) and exported cogeneration from a fuel outside the nearby "
+             "perimeter (C13_nearby_negative_refuted: RER_nrb < 0). "
              "The proofs go through a closed form of the step A / step B weighted energy of a carrier under regular "
              "factor sets (Proofs/ClosedForm.v, RerFacts.v).",
         design_ref="DESIGN.md §6 C13",
-        note="Trusted: Coq kernel + vm_compute; model tied by differential testing; reg_set of user RED1/RED2 variants relies on non-negative user values; one known finding.",
+        note="Trusted: Coq kernel + vm_compute; model tied by differential testing; reg_set of user RED1/RED2 variants relies on non-negative user values; two known findings.",
         technique="Coq proof (closed form of weighted energy, sum exchange over carriers, nra/lra) + refutation witness + correspondence + oracle"),
     "C15": dict(
         text="Executable Coq model of cte::fraccion_renovable_acs_nrb (all four contributions, exclusion tags, thresholds) "
